@@ -195,6 +195,14 @@ func addSubtree(t Tree, r *Route, next int, h Handler) (Leaf, error) {
 		return nil, errors.Errorf("duplicated match all bind parameter in position %d", segment.Pos.Offset)
 	}
 
+	// Add the rest of the route first, the new subtree only becomes part of the
+	// tree when that succeeds: a failed registration leaves nothing behind that
+	// could get in the way of a later one.
+	leaf, err := addNextSegment(subtree, r, next+1, h)
+	if err != nil {
+		return nil, err
+	}
+
 	// Determine subtree position by the priority of match styles.
 	subtrees := t.getSubtrees()
 	i := 0
@@ -211,7 +219,7 @@ func addSubtree(t Tree, r *Route, next int, h Handler) (Leaf, error) {
 	}
 	t.setSubtrees(subtrees)
 
-	return addNextSegment(subtree, r, next+1, h)
+	return leaf, nil
 }
 
 // addNextSegment adds next segment of the route to the tree.
